@@ -123,6 +123,9 @@ def dup_same(a, b, kind, method):
         return a.trs == b.trs          # TRS objects compare (and hash) by their string
     if method == 'trs':
         return a.trs == b.trs
+    if method == 'lots_qqs':
+        # only parsed tracts are compared by their lots / aliquots (the shape gives every tract the same, empty, lots and aliquots)
+        return a.parse_complete and b.parse_complete and a.trs == b.trs
     if method == 'desc':
         # derived key of the method: Twp/Rge/Sec and the (stripped) preprocessed description
         return a.trs + '_' + a.pp_desc.strip() == b.trs + '_' + b.pp_desc.strip()
@@ -153,7 +156,7 @@ def _dup_unit(kind, method, k, rep):
 
 def _dup_units():
     us = []
-    for kind, methods in (('Tract', ('default', 'instance', 'trs', 'desc')), ('TRS', ('default', 'trs', 'instance'))):
+    for kind, methods in (('Tract', ('default', 'instance', 'trs', 'desc', 'lots_qqs')), ('TRS', ('default', 'trs', 'instance'))):
         for method in methods:
             for k, rep in ((1, False), (2, False), (3, False), (3, True)):
                 us.append(_dup_unit(kind, method, k, rep))
@@ -416,7 +419,8 @@ def _bounded_containers(tier, seed):
         rng.shuffle(combos)
         combos = combos[:3000 if tier == 'quick' else 12000]
     for combo in combos:
-        tracts = [Tract(descs[(i + n) % len(descs)], trs=pool[i], parse_qq=True) for n, i in enumerate(combo)]
+        # every third list holds some tracts that were never parsed into lots / aliquots
+        tracts = [Tract(descs[(i + n) % len(descs)], trs=pool[i], parse_qq=not (sum(combo) % 3 == 0 and n % 2 == 1)) for n, i in enumerate(combo)]
         if len(combo) >= 3 and combo[0] == combo[-1]:
             tracts[-1] = tracts[0]
         for kind in ('Tract', 'TRS'):
@@ -452,7 +456,8 @@ def _bounded_containers(tier, seed):
                         if method == 'desc':
                             return f"{e.trs}_{e.pp_desc.strip()}"
                         if method == 'lots_qqs':
-                            return f"{e.trs}_{sorted(set(e.lots_qqs))}"
+                            # an unparsed tract has no lots / aliquots to compare: a duplicate by identity only
+                            return f"{e.trs}_{sorted(set(e.lots_qqs))}" if e.parse_complete else id(e)
                         return id(e)
                     want = [n for n in range(len(o)) if any(o[j] is o[n] or key(o[j]) == key(o[n]) for j in range(n))]
                     r = l.filter_duplicates(method=method, drop=drop)
